@@ -2,7 +2,7 @@
 import importlib
 from . import common as C
 
-PROPS = ["C18"]
+PROPS = ["C18", "C17"]
 
 
 def run():
